@@ -135,8 +135,14 @@ func (v *Verifier) asBool(x Val, pos token.Pos) *Term {
 // toIdx converts an integer scalar to the index sort (BV64, sign- or zero-extended).
 func (v *Verifier) toIdx(x Val, pos token.Pos) *Term {
 	s := v.asScalar(x, pos)
-	if v.eng.MathInts {
-		return s.T
+	if v.eng.IntIdx() {
+		if s.T.Sort == IntSort {
+			return s.T
+		}
+		if s.T.Sort.Kind == SBV {
+			return v.bvToInt(s.T, isSigned(s.Typ))
+		}
+		panic(unsupportedf(pos, "index is not an integer"))
 	}
 	if s.T.Sort.Kind != SBV {
 		panic(unsupportedf(pos, "index is not an integer"))
@@ -153,7 +159,7 @@ func isSigned(t types.Type) bool {
 }
 
 func (v *Verifier) idxConst(n int64) *Term {
-	if v.eng.MathInts {
+	if v.eng.IntIdx() {
 		return v.eng.C.Inti(n)
 	}
 	return v.eng.C.BV(big.NewInt(n), 64)
@@ -163,25 +169,25 @@ func (v *Verifier) intVal(t *Term) Val { return Scalar{t, types.Typ[types.Int]} 
 
 // index arithmetic helpers (mode dependent)
 func (v *Verifier) iAdd(a, b *Term) *Term {
-	if v.eng.MathInts {
+	if v.eng.IntIdx() {
 		return v.eng.C.IAdd(a, b)
 	}
 	return v.eng.C.BVAdd(a, b)
 }
 func (v *Verifier) iSub(a, b *Term) *Term {
-	if v.eng.MathInts {
+	if v.eng.IntIdx() {
 		return v.eng.C.ISub(a, b)
 	}
 	return v.eng.C.BVSub(a, b)
 }
 func (v *Verifier) iLe(a, b *Term) *Term { // signed <=
-	if v.eng.MathInts {
+	if v.eng.IntIdx() {
 		return v.eng.C.ILe(a, b)
 	}
 	return v.eng.C.BVSle(a, b)
 }
 func (v *Verifier) iLt(a, b *Term) *Term {
-	if v.eng.MathInts {
+	if v.eng.IntIdx() {
 		return v.eng.C.ILt(a, b)
 	}
 	return v.eng.C.BVSlt(a, b)
@@ -189,7 +195,7 @@ func (v *Verifier) iLt(a, b *Term) *Term {
 
 // inRange: 0 <= i < n  (n known non-negative)
 func (v *Verifier) inRange(i, n *Term) *Term {
-	if v.eng.MathInts {
+	if v.eng.IntIdx() {
 		return v.eng.C.And(v.eng.C.ILe(v.eng.C.Inti(0), i), v.eng.C.ILt(i, n))
 	}
 	return v.eng.C.BVUlt(i, n)
@@ -197,7 +203,7 @@ func (v *Verifier) inRange(i, n *Term) *Term {
 
 // inRangeIncl: 0 <= i <= n
 func (v *Verifier) inRangeIncl(i, n *Term) *Term {
-	if v.eng.MathInts {
+	if v.eng.IntIdx() {
 		return v.eng.C.And(v.eng.C.ILe(v.eng.C.Inti(0), i), v.eng.C.ILe(i, n))
 	}
 	return v.eng.C.BVUle(i, n)
@@ -1083,6 +1089,14 @@ func (v *Verifier) shift(fr *Frame, st *State, op token.Token, ls Scalar, r Val,
 		cnt = c.BV(bi, w)
 	} else {
 		rs := v.asScalar(r, pos)
+		if rs.T.Sort == IntSort {
+			// hybrid mode: integer shift count
+			if !fr.inSpec && isSigned(rs.Typ) {
+				v.oblige(fr, st, "shift", pos, c.ILe(c.Inti(0), rs.T), "negative shift amount")
+			}
+			in := c.And(c.ILe(c.Inti(0), rs.T), c.ILt(rs.T, c.Inti(int64(w))))
+			rs = Scalar{c.Ite(in, c.Int2BV(rs.T, w), c.BVu(uint64(w), w)), uintTypeOfWidth(w)}
+		}
 		rw := rs.T.Sort.W
 		if isSigned(rs.Typ) && !fr.inSpec {
 			v.oblige(fr, st, "shift", pos, c.BVSle(c.BVu(0, rw), rs.T), "negative shift amount")
@@ -1122,12 +1136,12 @@ func (v *Verifier) convert(fr *Frame, st *State, val Val, to types.Type, pos tok
 		if tsh.Kind != ShScalar {
 			if tsh.Kind == ShOpaque {
 				// e.g. string(rune) / float conversions
-				return OpaqueVal{Sh: tsh, ID: c.App("conv$"+sanitize(typeKey(to)), IntSort, x.T), Nil: c.False()}
+				return OpaqueVal{Sh: tsh, ID: c.Fresh("conv", IntSort), Nil: c.False()}
 			}
 			panic(unsupportedf(pos, "conversion of scalar to %s", to))
 		}
 		if x.T.Sort == tsh.Sort && (x.T.Sort.Kind != SBV) {
-			if x.T.Sort == IntSort && !fr.inSpec {
+			if x.T.Sort == IntSort && !fr.inSpec && v.eng.MathInts {
 				// math mode: conversion must not change the value
 				if b, ok := to.Underlying().(*types.Basic); ok {
 					lo, hi := intRange(b, basicWidth(b))
@@ -1141,6 +1155,12 @@ func (v *Verifier) convert(fr *Frame, st *State, val Val, to types.Type, pos tok
 				return Scalar{c.SignExt(x.T, tsh.Sort.W), to}
 			}
 			return Scalar{c.ZeroExt(x.T, tsh.Sort.W), to}
+		}
+		if x.T.Sort.Kind == SBV && tsh.Sort == IntSort {
+			return Scalar{v.bvToInt(x.T, isSigned(x.Typ)), to}
+		}
+		if x.T.Sort == IntSort && tsh.Sort.Kind == SBV {
+			return Scalar{c.Int2BV(x.T, tsh.Sort.W), to}
 		}
 		panic(unsupportedf(pos, "conversion %s -> %s", x.Typ, to))
 	case StructVal:
@@ -1329,3 +1349,15 @@ func (v *Verifier) freshRef(st *State) *Term {
 }
 
 func (v *Verifier) String() string { return fmt.Sprintf("verifier(%s)", v.curFn) }
+
+// bvToInt: the mathematical value of a bit-vector (hybrid mode bridge).
+func (v *Verifier) bvToInt(t *Term, signed bool) *Term {
+	c := v.eng.C
+	n := c.BV2Nat(t)
+	if !signed {
+		return n
+	}
+	w := t.Sort.W
+	neg := c.Eq(c.Extract(w-1, w-1, t), c.BVu(1, 1))
+	return c.Ite(neg, c.ISub(n, c.Int(new(big.Int).Lsh(big.NewInt(1), uint(w)))), n)
+}
